@@ -34,10 +34,25 @@ def allow(ev):
     return None
 
 
+_ISCLOSE_DEFAULTS = {"rtol": 1e-05, "atol": 1e-08, "equal_nan": False}
+
+
+def _canon_tol_text(ev):
+    """text of a tolerance test with the keywords that merely spell out numpy's defaults removed (identity of an enumerated site)"""
+    import ast as _ast
+    node = getattr(ev, "node", None)
+    if isinstance(node, _ast.Call) and node.keywords:
+        kws = [k for k in node.keywords if not (k.arg in _ISCLOSE_DEFAULTS and isinstance(k.value, _ast.Constant)
+                                                and k.value.value == _ISCLOSE_DEFAULTS[k.arg] and type(k.value.value) is type(_ISCLOSE_DEFAULTS[k.arg]))]
+        if len(kws) != len(node.keywords):
+            return norm_text(_ast.Call(func=node.func, args=node.args, keywords=kws))
+    return ev.text()
+
+
 def tolerances(rep, res, entry):
     for ev in res.events("abs_tolerance"):
         from ..engine import structural_key
-        key = (ev.fn.name, structural_key(ev.text()))
+        key = (ev.fn.name, structural_key(_canon_tol_text(ev)))
         if not ev.d.get("dimensioned"):
             ops = ev.d["operands"]
             if all(o.unit is None for o in ops if not o.known):
